@@ -34,6 +34,7 @@ type Program struct {
 	repo       string
 	extSpecs   map[string]*FuncContract // trusted contracts for functions outside the module
 	sweeps     []sweepSpec
+	mapOrders  []mapOrderSpec
 	constGlobals map[*ssa.Global]*constGlobalInfo
 	fieldInitOnly map[string]bool
 	allFuncs   map[*ssa.Function]bool
@@ -196,6 +197,7 @@ type FuncContract struct {
 	LoopTypeInvs []*Clause
 	ParamNames []string
 	InvParams []string
+	MapOrder  []string        // properties the map-iteration order obligations belong to
 	Reveal    map[string]bool // tags of opaque callee ensures this function's proofs use
 }
 
@@ -255,6 +257,7 @@ func loadProgram(repo string) (*Program, error) {
 	}
 	p.resolveAliases()
 	p.applySweeps()
+	p.applyMapOrder()
 	p.applyFuncTypeContracts()
 	p.applyTypeInvs()
 	p.analyseGlobals()
@@ -388,7 +391,7 @@ func representable(t types.Type, depth int) bool {
 
 var clauseKeywords = map[string]bool{"func": true, "requires": true, "ensures": true, "loop": true, "arith": true,
 	"safety": true, "inline": true, "pure": true, "trusted": true, "skip": true, "ghost": true, "lemma": true,
-	"modifies": true, "note": true, "opaque": true, "sweep": true, "typeinv": true, "noinv": true, "valueinv": true, "params": true, "noloopinv": true, "define": true, "reveal": true}
+	"modifies": true, "note": true, "opaque": true, "sweep": true, "typeinv": true, "noinv": true, "valueinv": true, "params": true, "noloopinv": true, "define": true, "reveal": true, "maporder": true}
 
 func (p *Program) parseContracts(pk *packages.Package) error {
 	for i, f := range pk.Syntax {
@@ -482,6 +485,17 @@ func (p *Program) parseContractFile(pkgName string, f *ast.File, fname string, e
 						continue
 					}
 					p.sweeps = append(p.sweeps, sweepSpec{pkg: pkgName, prop: ws[0], file: fn, dir: filepath.Dir(fname), excl: excl})
+				}
+				cur = nil
+				continue
+			}
+			if word == "maporder" {
+				ws := strings.Fields(rest)
+				if len(ws) < 2 {
+					return fmt.Errorf("%s: maporder needs a property and file names", where)
+				}
+				for _, fn := range ws[1:] {
+					p.mapOrders = append(p.mapOrders, mapOrderSpec{pkg: pkgName, prop: ws[0], file: fn, dir: filepath.Dir(fname)})
 				}
 				cur = nil
 				continue
